@@ -697,7 +697,7 @@ structure Filtered where
   types : List Id
   /-- `namespace.routes` of all namespaces: whitelisted ∪ `output_routes` -/
   routes : List Id
-  /-- `namespace.aliases`: untouched by the filter -/
+  /-- `namespace.aliases`: those whose target mentions retained data types only -/
   aliases : List Id
   /-- the final `seen` -/
   seen : List Item
@@ -705,7 +705,44 @@ structure Filtered where
   start : List Id
 deriving Repr, Inhabited
 
-def Graph.allAliases (g : Graph) : List Id := (g.nodes.filter (·.isAlias)).map (·.id)
+/-- the ids of all aliases (`namespace.aliases` of all namespaces) -/
+def Graph.allAliases (g : Graph) : List Id := g.ids.filter g.isAliasId
+
+/-- `_alias_target_retained(data_type, retained)` over the references of a type expression (a `List`,
+`Nullable` or `Map` is retained when its parts are): a user-defined type must be in `retained`, an
+alias is looked through. One unit of `fuel` per reference visited (Python: no bound; alias cycles
+are spec errors). -/
+def targetRetained (g : Graph) (retained : List Id) : Nat → List Id → Except Err Bool
+  | _, [] => .ok true
+  | 0, _ :: _ => .error .recursion
+  | fuel + 1, r :: rest =>
+    match g.node? r with
+    | none => .error (.dangling r)
+    | some nd =>
+      if nd.isAlias then
+        match targetRetained g retained fuel nd.target.refs with
+        | .error e => .error e
+        | .ok b =>
+          match targetRetained g retained fuel rest with
+          | .error e => .error e
+          | .ok b' => .ok (b && b')
+      else if nd.isType then
+        match targetRetained g retained fuel rest with
+        | .error e => .error e
+        | .ok b' => .ok (retained.contains r && b')
+      else .error (.dangling r)
+
+/-- `[alias for alias in namespace.aliases if self._alias_target_retained(alias.data_type, retained)]` -/
+def filterAliases (g : Graph) (retained : List Id) (fuel : Nat) : List Id → Except Err (List Id)
+  | [] => .ok []
+  | a :: rest =>
+    match g.node? a with
+    | none => .error (.dangling a)
+    | some nd =>
+      match targetRetained g retained fuel nd.target.refs, filterAliases g retained fuel rest with
+      | .ok b, .ok l => .ok (if b then a :: l else l)
+      | .error e, _ => .error e
+      | _, .error e => .error e
 
 /-- `_filter_namespaces_by_route_whitelist` -/
 def whitelistFilter (g : Graph) (wl : Whitelist) : Except Err Filtered :=
@@ -722,11 +759,14 @@ def whitelistFilter (g : Graph) (wl : Whitelist) : Except Err Filtered :=
         match dfs g (g.dfsFuel start.length) (start.map .node) {} with
         | .error e => .error e
         | .ok st =>
-          .ok { types := st.types
-                routes := addAll [] (wlRoutes ++ st.routes)
-                aliases := g.allAliases
-                seen := st.seen
-                start := start }
+          match filterAliases g st.types (g.dfsFuel 0) g.allAliases with
+          | .error e => .error e
+          | .ok als =>
+            .ok { types := st.types
+                  routes := addAll [] (wlRoutes ++ st.routes)
+                  aliases := als
+                  seen := st.seen
+                  start := start }
 
 /-- the aliases the walk visited -/
 def Filtered.reachedAliases (g : Graph) (r : Filtered) : List Id :=
